@@ -1118,3 +1118,10 @@ Lemma own_as_ext c p a v i : get p a = Some v -> (i < length (els v))%nat ->
 Proof. intros Hg Hi. apply Nat.ltb_lt in Hi. unfold step, on. rewrite Hg. cbn [arg_ok argval]. rewrite Hi.
   repeat split; intros; rewrite ?andb_true_r; reflexivity. Qed.
 
+
+(* ---- C14 at the level of the operation model -------------------------------------------------------------------------- *)
+Lemma relocate_step c p a b v : get p a = Some v -> get p b = None -> a <> b -> container_tr c = true ->
+  step c p (Relocate a b) = (set (set p b (Some v)) a None, ROk, []).
+Proof. intros Ha Hb Hab Ht. unfold step, on. apply Nat.eqb_neq in Hab. rewrite Hab, Ha, Hb, Ht. reflexivity. Qed.
+Lemma relocate_refused c p a b : container_tr c = false -> step c p (Relocate a b) = (p, RSkip, []).
+Proof. intros Ht. unfold step, on. destruct (Nat.eqb a b); [reflexivity|]. destruct (get p a); [|reflexivity]. destruct (get p b); [reflexivity|]. rewrite Ht. reflexivity. Qed.
